@@ -526,6 +526,48 @@ def Obs.run (o : Obs) : List ObsOp → List ObsAns × Obs
     let (as, o'') := Obs.run o' ops
     (a :: as, o'')
 
+/-! ### `update_initial_state` calls that a validating setter REJECTS (obstacle.py:691-704, setters :242-305)
+
+The method appends the four current values to the four history lists FIRST and only then hands the new values to the property
+setters `initial_state=`, `initial_signal_state=`, `initial_center_lanelet_ids=`, `initial_shape_lanelet_ids=`, in this order;
+each setter asserts the type of its argument.  A call whose argument number `k` (0 = state, 1 = signal state, 2 = centre ids,
+3 = shape ids) is the first invalid one therefore raises AssertionError AFTER all four lists grew by one entry and after the first
+`k` values were assigned; the prediction is not dropped and nothing is cut (the lines behind the raising setter are not reached).
+The caller may catch the error and go on: the lists must stay in step. -/
+
+/-- The four appends at obstacle.py:695-698. -/
+def Obs.pushHist (o : Obs) : Obs :=
+  { o with hist := o.hist ++ [⟨o.init, []⟩], sigHist := o.sigHist ++ [o.sig], cenHist := o.cenHist ++ [o.cen],
+           shpHist := o.shpHist ++ [o.shp] }
+
+/-- `update_initial_state(…)` whose argument number `k` is the first one a setter rejects (`k ≤ 3`; the arguments behind it never
+    reach the object).  Composed of the steps that are reached: bound assertion, the four appends, `initial_state=` (if `k ≥ 1`),
+    `initial_signal_state=` (if `k ≥ 2`), `initial_center_lanelet_ids=` (if `k ≥ 3`). -/
+def Obs.rejectedUpdate (o : Obs) (k : Nat) (v : Nat) (t0 : Int) (sig cen : Nat) (m : Int) : ObsAns × Obs :=
+  if !o.dynamic then (.err .attr, o) else         -- StaticObstacle has no such method
+  if m ≤ 0 then (.err .assert, o) else            -- obstacle.py:689: the bound is asserted before anything else
+  let o1 := o.pushHist
+  let o2 := if 1 ≤ k then (o1.step (.setInitialState v t0)).2 else o1
+  let o3 := (o2.step (.setMeta (if 2 ≤ k then sig else o2.sig) (if 3 ≤ k then cen else o2.cen) o2.shp)).2
+  (.err .assert, o3)
+
+/-- Operations of an obstacle history including rejected updates. -/
+inductive ObsOpX where
+  | plain (op : ObsOp)
+  | updateRejected (k : Nat) (v : Nat) (t0 : Int) (sig cen : Nat) (m : Int)
+  deriving DecidableEq, Repr, Inhabited
+
+def Obs.stepX (o : Obs) : ObsOpX → ObsAns × Obs
+  | .plain op => o.step op
+  | .updateRejected k v t0 sig cen m => o.rejectedUpdate k v t0 sig cen m
+
+def Obs.runX (o : Obs) : List ObsOpX → List ObsAns × Obs
+  | [] => ([], o)
+  | op :: ops =>
+    let (a, o') := o.stepX op
+    let (as, o'') := Obs.runX o' ops
+    (a :: as, o'')
+
 /-- The object a public constructor builds from the same primary data: all caches as at construction. -/
 def TPred.rebuild (p : TPred) : TPred := { p with cache := none }
 
